@@ -28,8 +28,8 @@ type Config struct {
 	DecJobs    int    `json:"decJobs"`
 	BigParam   bool   `json:"-"`
 	SkipBlocks bool   `json:"skipBlocks,omitempty"` // writer option: store incompressible blocks verbatim
-	WBuf       int    `json:"wbuf,omitempty"` // shared output bitstream buffer (0 = library default)
-	RBuf       int    `json:"rbuf,omitempty"` // shared input bitstream buffer (0 = library default)
+	WBuf       int    `json:"wbuf,omitempty"`       // shared output bitstream buffer (0 = library default)
+	RBuf       int    `json:"rbuf,omitempty"`       // shared input bitstream buffer (0 = library default)
 }
 
 // GenBuf draws a bitstream buffer size (multiple of 8, >= 1024); 0 = default.
@@ -60,21 +60,22 @@ func (c Config) CodecSig() string {
 
 // GenOpts steer configuration generation.
 type GenOpts struct {
-	Cheap       bool // weight cheap codecs up (schedule-focused properties)
-	MaxJobs     int
-	MaxBlock    int  // largest block size
-	AllowHuge   bool // allow multi-MiB blocks at low rate
-	NoHint      bool // never give a size hint
-	ExactHint   bool // only absent or exact hints
-	Checksummed bool // force checksum 32/64
-	NoChecksum  bool
-	Headerless  bool // allow headerless
-	MixedCase   bool // allow lower/mixed case names
-	MaxChain    int
-	SkipOpt     bool // allow the skipBlocks writer option
-	BigParam    bool // allow large block-size parameters (with little data)
-	LongChains  bool // allow chains of 5-8 rarely declining transforms
-	Geometry    bool // allow the special batch geometries (many blocks / big blocks)
+	Cheap        bool // weight cheap codecs up (schedule-focused properties)
+	MaxJobs      int
+	MaxBlock     int  // largest block size
+	AllowHuge    bool // allow multi-MiB blocks at low rate
+	NoHint       bool // never give a size hint
+	ExactHint    bool // only absent or exact hints
+	Checksummed  bool // force checksum 32/64
+	NoChecksum   bool
+	Headerless   bool // allow headerless
+	MixedCase    bool // allow lower/mixed case names
+	MaxChain     int
+	SkipOpt      bool // allow the skipBlocks writer option
+	BigParam     bool // allow large block-size parameters (with little data)
+	LongChains   bool // allow chains of 5-8 rarely declining transforms
+	Geometry     bool // allow the special batch geometries (many blocks / big blocks)
+	LegacyWriter bool // let a sixth of the streams be written by the pinned reference encoder
 }
 
 func jobsDraw(t *sim.Tape, max int) int {
